@@ -30,6 +30,8 @@ type Obligation struct {
 	nAssert int
 	nDecl  int
 	scope  int // block tag of assumptions that belong to this obligation only
+	coverOnly bool
+	uses   map[string]bool // callee postcondition tags this obligation's query keeps (nil: all)
 	ctx    *Ctx
 	Result SolverResult
 	block  int      // block of the verified function the obligation arises in
@@ -38,6 +40,7 @@ type Obligation struct {
 }
 
 type Verifier struct {
+	unreachable []string // end-of-path obligations whose path is unreachable under the assumptions
 	p        *Program
 	obls     []*Obligation
 	counts   map[string]int
@@ -95,6 +98,7 @@ type Exec struct {
 	recName  string
 	recRegs  []string
 	curScope  int
+	lastUses  []string // uses(...) list of the clause evaluated last
 	muted     bool   // commutation runs: obligations are not recorded
 	mutedExit string // guard of a return reached during a muted run
 }
@@ -180,6 +184,15 @@ func (x *Exec) oblige(st *State, kind string, pos token.Pos, goal string, tag st
 	}
 	o := &Obligation{Name: name, Kind: kind, Func: x.key, Props: props, Tag: tag, Pos: where, Text: txt,
 		guard: st.guard, goal: goal, nAssert: len(x.c.assert), nDecl: len(x.c.decls), ctx: x.c, block: x.c.curBlock}
+	switch kind {
+	case "ensures", "inv-pres", "inv-init", "back-when", "exit-when":
+		if r := x.root(); len(r.lastUses) > 0 {
+			o.uses = map[string]bool{}
+			for _, u := range r.lastUses {
+				o.uses[u] = true
+			}
+		}
+	}
 	if x.inline {
 		// obligations inside inlined bodies belong to the inlining function
 		o.Func = x.root().key
@@ -774,6 +787,7 @@ func (x *Exec) enterLoop(li *loopInfo, edges []edgeState) *State {
 		x.c.curBlock = li.header.Index
 	}
 	entry := x.c.merge(edges)
+	x.c.curGuard = entry.guard
 	x.bindPhis(li.header, edges, entry)
 	lc := x.loopContract(li)
 	pos := x.loopPos(li)
@@ -1101,6 +1115,7 @@ func (x *Exec) execBlockWith(b *ssa.BasicBlock, st *State, push func(from, to *s
 	if !x.inline && !x.muted {
 		x.c.curBlock = b.Index
 	}
+	x.c.curGuard = st.guard
 	for _, in := range b.Instrs {
 		switch in := in.(type) {
 		case *ssa.Phi:
@@ -1152,6 +1167,7 @@ func (x *Exec) doReturn(st *State, r *ssa.Return) {
 
 func (x *Exec) instr(st *State, in ssa.Instruction) {
 	c := x.c
+	c.curGuard = st.guard
 	switch in := in.(type) {
 	case *ssa.Alloc:
 		x.doAlloc(st, in)
@@ -1416,7 +1432,7 @@ func (x *Exec) assumeValueInv(st *State, t types.Type, term string, isField bool
 	if vi == nil || (isField && !vi.zeroSafe) {
 		return
 	}
-	x.c.assume(x.valueInvTerm(st, vi, t, term))
+	x.c.assumeOnPath(x.valueInvTerm(st, vi, t, term))
 }
 
 func (x *Exec) checkValueInv(st *State, t types.Type, term string, isField bool, pos token.Pos) {
@@ -1664,7 +1680,7 @@ func (x *Exec) bytesToString(st *State, sl string) string {
 	s := c.freshSort("str", "Str")
 	arr := c.def("arr", "(Array Int "+c.intSort(8)+")", sx("select", h, sRef(sl)))
 	c.assume(eq(sx("gstr_len", s), sLen(sl)))
-	c.assume(fmt.Sprintf("(forall ((i Int)) (! (=> (and (<= 0 i) (< i %s)) (= (gstr_at %s i) (select %s (+ %s i)))) :pattern ((gstr_at %s i))))",
+	c.assumeDef(fmt.Sprintf("(forall ((i Int)) (! (=> (and (<= 0 i) (< i %s)) (= (gstr_at %s i) (select %s (+ %s i)))) :pattern ((gstr_at %s i))))",
 		sLen(sl), s, arr, sOff(sl), s))
 	return s
 }
@@ -1674,7 +1690,7 @@ func (x *Exec) stringToBytes(st *State, s string) string {
 	ref := c.newRef(st)
 	r, _ := c.elemRegion(types.Typ[types.Uint8])
 	arr := c.freshSort("arr", "(Array Int "+c.intSort(8)+")")
-	c.assume(fmt.Sprintf("(forall ((i Int)) (! (=> (and (<= 0 i) (< i (gstr_len %s))) (= (select %s i) (gstr_at %s i))) :pattern ((select %s i))))", s, arr, s, arr))
+	c.assumeDef(fmt.Sprintf("(forall ((i Int)) (! (=> (and (<= 0 i) (< i (gstr_len %s))) (= (select %s i) (gstr_at %s i))) :pattern ((select %s i))))", s, arr, s, arr))
 	c.setRegion(st, r, sx("store", c.region(st, r), ref, arr))
 	ln := sx("gstr_len", s)
 	return mkSlice(ite(eq(ln, "0"), "0", ref), "0", ln, ln)
@@ -1858,7 +1874,7 @@ func (x *Exec) lookup(st *State, lk *ssa.Lookup) Val {
 	vv := c.def("mv", c.sortOf(mt.Elem()), ite(hn, v, c.zero(mt.Elem())))
 	c.assume(implies(hn, c.wfAt(mt.Elem(), v, c.alloc(st))))
 	if vi := x.valueInvFor(mt.Elem()); vi != nil {
-		c.assume(implies(hn, x.valueInvTerm(st, vi, mt.Elem(), v)))
+		c.assumeOnPath(implies(hn, x.valueInvTerm(st, vi, mt.Elem(), v)))
 	}
 	if lk.CommaOk {
 		return Val{T: lk.Type(), Tup: []Val{{T: mt.Elem(), S: vv}, {T: types.Typ[types.Bool], S: hn}}}
@@ -1967,7 +1983,7 @@ func (x *Exec) sliceOp(st *State, so *ssa.Slice) Val {
 		x.oblige(st, "slice", so.Pos(), and(sx("<=", "0", lo), sx("<=", lo, hi), sx("<=", hi, sx("gstr_len", base.S))), "", nil)
 		r := c.freshSort("substr", "Str")
 		c.assume(eq(sx("gstr_len", r), sx("-", hi, lo)))
-		c.assume(fmt.Sprintf("(forall ((i Int)) (! (=> (and (<= 0 i) (< i (- %s %s))) (= (gstr_at %s i) (gstr_at %s (+ %s i)))) :pattern ((gstr_at %s i))))", hi, lo, r, base.S, lo, r))
+		c.assumeDef(fmt.Sprintf("(forall ((i Int)) (! (=> (and (<= 0 i) (< i (- %s %s))) (= (gstr_at %s i) (gstr_at %s (+ %s i)))) :pattern ((gstr_at %s i))))", hi, lo, r, base.S, lo, r))
 		return Val{T: so.Type(), S: r}
 	case *types.Pointer: // pointer to array
 		at := bt.Elem().Underlying().(*types.Array)
@@ -2061,7 +2077,7 @@ func (x *Exec) next(st *State, n *ssa.Next) Val {
 	vv := c.def("rv", c.sortOf(mt.Elem()), v)
 	c.assume(implies(ok, c.wfAt(mt.Elem(), vv, c.alloc(st))))
 	if vi := x.valueInvFor(mt.Elem()); vi != nil {
-		c.assume(implies(ok, x.valueInvTerm(st, vi, mt.Elem(), vv)))
+		c.assumeOnPath(implies(ok, x.valueInvTerm(st, vi, mt.Elem(), vv)))
 	}
 	tup := n.Type().(*types.Tuple)
 	return Val{T: n.Type(), Tup: []Val{{T: types.Typ[types.Bool], S: ok}, {T: tup.At(1).Type(), S: k}, {T: tup.At(2).Type(), S: vv}}}
